@@ -95,10 +95,14 @@ func init() {
 			"0-3 objects each with generated iCalendar / vCard data, entity tags, instants in various zones; objects whose backend Get fails with 403/404/423/500 or a plain error) " +
 			"held by the recording backend double behind the real caldav/carddav Handler, exercised through the real Client over an in-process HTTP client that records every exchange: " +
 			"Find..., Get...Object (<=3), MultiGet... (all hrefs succeed; hrefs mixing success and failure), Query..., Put...Object. " +
+			"A third of these worlds are mounted: Handler.Prefix is set (/dav, /caldav, /a, /dav/v1, a prefix that needs escaping; with or without a trailing slash), every backend path lies below it, and in half of them the principal, home-set, collection and object names are related to the prefix's spelling " +
+			"(words made of its letters, its own segment again, its segment with a foreign head or tail); half of the mounted worlds create the client with the mount point as endpoint. " +
+			"A quarter of the worlds hold paths of other shapes (a collection spelled without a trailing slash or lying outside the home set, an object below a sub-path or outside the collection); a quarter name the object of a Get, a third that of a PUT, relative to the endpoint. " +
+			"One multiget REPORT per world is written by the harness itself in another request form (allprop | propname | prop without data) and its answer judged on the wire (readable, one response per href in request order, the backend's status for failing hrefs, equal values where given). " +
 			"Every value returned by the client, every argument received by the backend's Put and an independent reading of every recorded response (davx strict multi-status reader, HTTP headers, payload) are compared with what the backend holds. " +
 			"Writer cases: a conformant multi-status written by the harness's independent writer (davx.MultiStatusTree + xmltree.Render) in a lexical/structural variant " +
 			"(prefixes, default namespaces, white space, comments, CDATA, character references, one property per propstat, 404 propstat before/after, unknown extra properties and elements, absolute / over-escaped hrefs, folded payload lines) " +
-			"served by a scripted HTTP client to FindCalendars, FindAddressBooks, MultiGet..., Query... and carddav SyncCollection; the writer's document is first read back by the independent reader (self-check). " +
+			"served by a scripted HTTP client to FindCalendars, FindAddressBooks, MultiGet..., Query... and carddav SyncCollection (initial or incremental, with or without a limit, data requested as allprop / the zero request / a selection; where the answer carries a member's whole card the returned value must carry an equal card); the writer's document is first read back by the independent reader (self-check). " +
 			"Overlap cases: K=2..6 goroutines issue different MultiGet (several with request bodies of equal size) / Query / Find calls through ONE client; a gating HTTP client parks each request until all K have been handed over and forwards them one by one in a seeded order to the real handler (GOMAXPROCS 1, 2 or 4); " +
 			"the request each caller's exchange carried is read independently (method, target, root element, hrefs) and the sequential per-call oracle is applied to every caller. " +
 			"evaluations = client calls made. distinct_nontrivial = distinct abstract classes: per collection (protocol, path class, display-name class, description class, size-limit class, component-set class), " +
@@ -111,6 +115,9 @@ func init() {
 			"the order of collections in discovery results and of objects in query results is not part of the statement (observed, not judged); multiget order is",
 			"a backend error without an HTTP status of its own may be answered with any non-2xx status",
 			"response headers travel through httptest.ResponseRecorder, i.e. without net/http's header sanitising: the check sees at least every deviation a real connection would show for the generated values (no control characters in paths)",
+			"a mounted handler is only sent requests below its Prefix, and its backend only holds paths below it; collection arguments are always the backend's own (absolute) spelling: what a client call makes of a relative or differently slashed collection name is not part of the statement",
+			"a server that answers a harness-written multiget form with anything but 207 is observed, not judged; under allprop only the values the answer carries are compared",
+			"SyncCollection with a selection of vCard properties (DataRequest.Props): what the answering server sends is open, the returned card is not judged",
 			"independent writer: entity tags are written as DQUOTE tag DQUOTE with tags made of RFC 7232 etagc characters (a small class contains a backslash, which etagc allows); weak tags are not generated (no public representation)",
 		},
 		MinEvals:    func(t string) int64 { return map[string]int64{"quick": 12000, "thorough": 150000}[t] },
